@@ -96,6 +96,28 @@ mod c08res {
         raw
     };
 
+    /// the same through TUPLE types (4 bytes per level: <tuple><1 field>): every recursive branch has to count the depth
+    #[kani::proof]
+    #[kani::unwind(164)]
+    #[kani::stub(std::rt::thread_cleanup, noop)]
+    #[kani::stub(alloc::fmt::format, empty_string)]
+    fn c08_type_nesting_bounded_tuple() {
+        let mut s = &NESTED_TUPLE[..];
+        let r = MD::new(deser_type_owned(&mut s));
+        assert!(r.is_err(), "a tuple type nested 160 levels deep must be refused (recursion depth is input-controlled)");
+    }
+    static NESTED_TUPLE: [u8; 4 * DEPTH + 2] = {
+        let mut raw = [0u8; 4 * DEPTH + 2];
+        let mut i = 0;
+        while i < DEPTH {
+            raw[4 * i + 1] = 0x31;
+            raw[4 * i + 3] = 0x01;
+            i += 1;
+        }
+        raw[4 * DEPTH + 1] = 0x09;
+        raw
+    };
+
     /// ... while ordinary nesting keeps decoding: list<map<int, set<text>>>
     #[kani::proof]
     #[kani::unwind(8)]
